@@ -57,6 +57,12 @@ def run(chk):
     # diagonal: component coupling inside a blocked / mixed space, and interior facets (macro diagonal)
     add(s5.sample_cases([c for c in cases if c["elem"] in ("vP1", "vP2") and c["term"] in ("divdiv", "cten")], 3 if quick else 20,
                         chk.seed + 5, max_cost=40), {"part": "diagonal"}, "diag")
+    # history: the same LIST of forms compiled with part='diagonal' first and with the default options afterwards
+    # (the second compile must still see the whole form)
+    for k, cl in enumerate(("triangle",) if quick else ("triangle", "tetrahedron")):
+        items.append({"builder": "harness.corpus.realise_thdiv", "th": {"cell": cl, "rule": k, "coupled": True}, "seed": chk.seed + 80 + k, "scalar": "float64",
+                      "ninputs": 1, "geom": "affine", "options": {}, "pre_list_options": {"part": "diagonal"},
+                      "label": f"thdiv/{cl}|full-after-diag-on-same-list"})
     for k, cl in enumerate(("triangle",) if quick else ("triangle", "tetrahedron")):
         items.append({"builder": "harness.corpus.realise_thdiv", "th": {"cell": cl, "rule": k}, "seed": chk.seed + 70 + k, "scalar": "float64",
                       "ninputs": 1, "geom": "affine", "options": {"part": "diagonal"}, "label": f"thdiv/{cl}|diag"})
